@@ -53,6 +53,11 @@ CLAIMED = {
    note="Trusted: Coq kernel + vm_compute; correspondence driver; Python re validated differentially per extraction function; logging prefix, repr()/ast.literal_eval of bytes are exercised, not modelled (one genuine defect in that residue was found by the correspondence and repaired: fix 5e5c2b4). Pack-name / snapshot-name extraction is modelled and validated but its round trip is not proved (greedy groups). Closed under the global context.",
    technique="Rocq proof (positional-notation round trip by induction, list split/join lemmas) + finite vm_compute over regenerated snapshots + writer/parser composition on the real code",
    design="3/C19"),
+ "C12": dict(
+   text="Machine-checked proof over a model of _scan_outputs: for ANY assignment of output labels the wired devices are exactly the pack's devices some non-NA label starts with, each once and in table order even when a device is on several outputs (dict.fromkeys de-duplication proved equal to a filter); the exposed (device, demand) pairs are exactly those with a case-insensitively matching user demand and an entry in DEVICES, partitioned by class, in table order; all automation keys (hence unique ids) are pairwise distinct and lookup by key returns the device. The DEVICES / SENSORS / BINARY_SENSORS tables and fixed keys are regenerated by introspection; per shipped log table Coq checks that device keys are distinct and no two demand keys collide under upper-casing. Correspondence: the real _scan_outputs (async) and scan_outputs (threaded, under three PYTHONHASHSEEDs in subprocesses) on real structures with synthetic wirings, lists / demands / modes / keypad codes / keys compared with the model.",
+   note="Trusted: Coq kernel + vm_compute; introspection extractors; scan methods run unbound on stub facades with real structures (whole-facade construction is C11). One genuine defect repaired (fix 9087322: hash-seed dependent order in the threaded facade). Closed under the global context.",
+   technique="Rocq proof (list filter / flat_map / NoDup lemmas) over generated tables + subprocess differential runs across hash seeds",
+   design="3/C12"),
 }
 
 REASON_PENDING = "check not built yet in this round (model and correspondence under construction; see DESIGN.md section 8)"
